@@ -1,5 +1,4 @@
 // Capability <-> Val conversion (same numbering as coq/Model/Caps.v v_cap).
-#![allow(dead_code)]
 use super::val::Val;
 use rustybgp_packet::bgp::{Capability, Family};
 
